@@ -36,14 +36,15 @@ theorem pack_eq_spec : ∀ p ∈ Spec.OF10.table, (cls p.1).map (·.packL) = som
 theorem len_eq : ∀ c ∈ classes, c.lenL.agrees elemSize c.packL = true := by decide
 
 /-- classes the translator cannot read today.  A class silently falling out of the translator's vocabulary (or a new
-    codec class appearing) changes this list and breaks the build.  Why each is here:
-    `ofp_header` abstract (no `__len__`); `ofp_packet_out` two length fields (hand model `CodecOF.encPacketOut`);
-    `ofp_flow_mod_table_id` `super().pack()` splice; `nx_flow_mod`, `nxt_packet_in`, `nx_match`, `nxm_entry` NXM TLVs
-    (hand model `CodecNXM`); `nx_action_bundle`, `nx_output_reg`, `nx_reg_move`, `nx_reg_load` NXM headers inside the
-    body; `nx_action_learn`, `flow_mod_spec` learn specs. -/
+    codec class appearing) changes this list and breaks the build.  Why each is here, and what covers it instead:
+    `ofp_header` abstract (no `__len__`); `ofp_packet_out` two length fields → `packet_out_roundtrip`;
+    `nx_flow_mod`, `nxt_packet_in` second length field + NXM match → `nx_flow_mod_roundtrip`, `nxt_packet_in_roundtrip`;
+    `nx_match`, `nxm_entry` NXM TLVs → `nx_match_roundtrip`, `nxm_roundtrip`;
+    `ofp_flow_mod_table_id` `super().pack()` splice; `nx_action_bundle` NXM headers and slave list in the body;
+    `nx_action_learn`, `flow_mod_spec` learn specs — these four: correspondence / oracle only. -/
 theorem untranslated_pinned : untranslated =
-    ["ofp_header", "ofp_packet_out", "ofp_flow_mod_table_id", "nx_flow_mod", "nx_action_bundle", "nx_output_reg",
-     "nx_reg_move", "nx_reg_load", "nx_action_learn", "flow_mod_spec", "nxm_entry", "nxt_packet_in", "nx_match"] := by
+    ["ofp_header", "ofp_packet_out", "ofp_flow_mod_table_id", "nx_flow_mod", "nx_action_bundle", "nx_action_learn",
+     "flow_mod_spec", "nxm_entry", "nxt_packet_in", "nx_match"] := by
   decide
 
 /-- translated classes whose values are not written verbatim (name ↦ what the source does) -/
@@ -54,11 +55,31 @@ theorem irregular_pinned : irregular =
         "computed:dl_dst", "computed:dl_vlan", "computed:dl_vlan_pcp", "computed:dl_type", "computed:nw_tos",
         "computed:nw_proto", "computed:nw_src", "computed:nw_dst", "computed:tp_src", "computed:tp_dst"]),
      ("ofp_action_output", ["normalises:max_len when port"]),
-     ("ofp_flow_mod", ["local:po", "local:buffer_id", "normalises:buffer_id when data", "branch-on:",
-        "substructure-option:match(flow_mod)", "computed:buffer_id", "conditional-append-on:data"]),
+     ("ofp_flow_mod", ["locals", "normalises:buffer_id when data", "substructure-option:match(flow_mod)",
+        "computed:buffer_id", "conditional-append-on:data"]),
      ("ofp_stats_request", ["normalises:type when type", "memoised:body_packed", "dispatch-on-body"]),
      ("ofp_stats_reply", ["normalises:type when type", "dispatch-on-body"]),
-     ("nx_flow_mod_table_id", ["computed:enable"])] := by decide
+     ("nx_flow_mod_table_id", ["computed:enable"]),
+     ("nx_output_reg", ["normalises:nbits when nbits", "locals", "computed:ofs_nbits(nbits,offset)", "computed:reg"]),
+     ("nx_reg_move", ["normalises:nbits when nbits", "locals", "computed:src", "computed:dst"]),
+     ("nx_reg_load", ["locals", "branch-on:dst", "normalises:nbits when nbits", "computed:ofs_nbits(nbits,offset)",
+        "computed:dst", "computed:value"])] := by decide
+
+/-- irregular / untranslated classes that have a hand model with its own theorem in this file:
+    `ofp_match` (`match_roundtrip`, `match_roundtrip_fm`), `ofp_flow_mod` (`roundtrip` for the layout +
+    `flow_mod_data_roundtrip` for the `data` magic), `ofp_stats_request`/`ofp_stats_reply` (`stats_reply_list_roundtrip`,
+    `stats_body_roundtrip`), `ofp_packet_out`, `nx_flow_mod`, `nxt_packet_in`, `nx_match`, `nxm_entry`;
+    `ofp_action_output` only normalises a value before the regular `roundtrip` applies; `ofp_header` is abstract. -/
+def covered : List String :=
+  ["ofp_match", "ofp_action_output", "ofp_flow_mod", "ofp_stats_request", "ofp_stats_reply", "ofp_header",
+   "ofp_packet_out", "nx_flow_mod", "nxt_packet_in", "nx_match", "nxm_entry"]
+
+/-- what is left to the correspondence run and the oracle alone (values computed from NXM classes, learn specs, the
+    table-id splice).  Pinned: a class joining or leaving this list breaks the build. -/
+theorem uncovered_pinned :
+    ((irregular.map (·.1)) ++ untranslated).filter (fun n => !covered.contains n) =
+    ["nx_flow_mod_table_id", "nx_output_reg", "nx_reg_move", "nx_reg_load", "ofp_flow_mod_table_id", "nx_action_bundle",
+     "nx_action_learn", "flow_mod_spec"] := by decide
 
 /-! ## 2. Registries (the decorators): every type code of the standard has a class, and it is the right one -/
 
